@@ -40,7 +40,9 @@ CLAIMS = {
    technique='structural obligations on the sort key and the sorting call (discharged on the current source) + bounded run-time contracts for ordering, schema, JSON and losslessness',
    text='Mixed: the ordering clause is reduced to obligations on the real code -- validated() returns sorted(self.decisions, key=_sort_key, reverse=True); _sort_key is an elementwise map of common_path '
         '(one append per path element, built from that element alone, tuples led by a string, list indices keyed by (\'\', -index)) -- from which deeper paths and higher indices sort first by the meaning of list comparison. '
-        'Ordering (prefix_before), merge/diff schema validation, JSON round trip, apply_decisions==merged, and choose-local / choose-remote reproduction under the web tool strategy are BOUNDED.'),
+        'The web handlers keep no per-application state besides the constant merge arguments (frame obligations over application-lived state). '
+        'Ordering (prefix_before), merge/diff schema validation, JSON round trip, apply_decisions==merged, choose-local / choose-remote reproduction under the web tool strategy, and "the decisions served by '
+        'POST /api/merge are the library\'s for the files as they are on disk" (web sessions incl. an input saved again between two requests) are BOUNDED.'),
  'C10': bounded('Frame obligations (no shared mutable default / module state behind the strategy tables, discharged syntactically on the current sources) + use-x strategies (uniform and mixed merge/input/output, transients on/off) against the open merge with every conflicted decision re-labelled to the side its path selects; no-fabricated-line clause.', 'DESIGN.md 5/C10'),
  'C11': dict(category='other', design_ref='DESIGN.md 5/C11', note=TRUST, technique=TECH_MIX,
    text='Mixed: wf_seq / wf_map are discharged postconditions of every list / dict differ under contract, and deep well-formedness wf_v(a, diff(a, b)) (every nested '
@@ -50,7 +52,8 @@ CLAIMS = {
    technique='frame obligations from the value model of the contract verifier (a write through a parameter or an alias of one fails by construction) + bounded before/after snapshot contract',
    text='Mixed: for every real function under contract (diff, patch, diff_lists, diff_dicts, patch_list, patch_dict, the builders, the snake and LCS functions) the VCs regenerated from the current '
         'source contain one failing frame obligation per write through a list/dict/set parameter or a local alias of one, and field writes are confined to the declared modifies sets: none arises (54 parameters). '
-        'For the public calls (diff_notebooks, patch_notebook, merge_notebooks, apply_decisions, pretty_print_*) a BOUNDED before/after canonical-JSON snapshot of every argument decides.'),
+        'The one place where the notebook differ edits its arguments (diff_single_outputs detaches `data`) carries a Tier E path obligation: on each of its returning paths every pop is followed by '
+        'storing the popped value back. For the public calls (diff_notebooks, patch_notebook, merge_notebooks, apply_decisions, pretty_print_*) a BOUNDED before/after canonical-JSON snapshot of every argument decides.'),
  'C14': dict(category='other', design_ref='DESIGN.md 5/C14, A4', note=TRUST if False else 'Trusted: Tier E value abstraction and effect table (listed in evidence); the bounded part explores the stated small scope only.',
    technique='path postconditions on set_notebook_diff_targets + call-site dispatch obligations (proved) ; bounded run-time contract with the category table as oracle',
    text='Mixed: the category->path table and key filters that set_notebook_diff_targets installs are PROVED on all 16 paths, and the dispatch lemma (recursive differ calls use config.differs[subpath] and hand on path/config) '
@@ -70,9 +73,10 @@ CLAIMS.update({
  'C12': dict(category='other', design_ref='DESIGN.md 5/C12', note='Frame analysis is syntactic (alias rules listed in evidence); history test is bounded.', technique='frame contracts over module-level state (Kit F) + bounded history-vs-fresh-interpreter comparison',
    text='Mixed: a frame contract over every module-level mutable object, every write / default-insert / history-dependent read site and every mutable default argument found in the current '
         'sources (one obligation each, all discharged) shows that no undeclared global state exists and that the declared state is only touched by the declared writers; the value-level '
-        'claim (results equal those of a fresh interpreter) is covered by a BOUNDED comparison of call histories with fresh interpreters.'),
+        'same contract covers state that lives as long as the web application (tornado settings, application attributes, start-up parameters reached through handler attributes); the value-level '
+        'claim (results equal those of a fresh interpreter / a fresh server) is covered by a BOUNDED comparison of call histories with fresh interpreters and of web sessions with fresh servers.'),
  'C16': dict(category='other', design_ref='DESIGN.md 5/C16', note=TRUST_E, technique=TECH_E + ' (empty-diff and ESC-freedom clauses); bounded run-time contract for never-fails / prints-something',
-   text='Mixed: the empty-diff clause and the ESC-freedom dataflow (colour flags removed from the git command when colour is off, syntax highlighting only under use_color, ESC literals '
+   text='Mixed: the empty-diff clause and the ESC-freedom dataflow (with colour off the git command is given --no-color, so the user\'s git configuration cannot switch colour back on; syntax highlighting only under use_color; ESC literals '
         'confined to col_const[True]) are PROVED as path / literal obligations on the real code; "never fails" and "prints something for every visible diff" are BOUNDED.'),
  'C17': dict(category='proof', design_ref='DESIGN.md 5/C17', note=TRUST_E + ' CONDITIONAL on the assumed GitPython contract; get_repo is outside the subset (bounded only).', technique=TECH_E,
    text='Path postconditions on the real pushd, _get_diff_entry_stream and changed_notebooks (2500+ obligations incl. exceptional edges and generator close), all discharged: cwd restored on '
@@ -81,7 +85,8 @@ CLAIMS.update({
  'C18': dict(category='proof', design_ref='DESIGN.md 5/C18', note=TRUST_E + ' CONDITIONAL on the assumed semantics of `git config`.', technique=TECH_E,
    text='Path postconditions on the 8 real enable/disable functions over the git-command effect log, all discharged: scope flag on every invocation exactly when requested, only own '
         'keys/sections written, merge.tool/diff.guitool unset only under the path condition that the value read in the same scope is "nbdime", attributes file append-only with exactly '
-        'one newline-led rule guarded by a marker search. Conditional on `git config` semantics, monitored against real git by the bounded module.'),
+        'one newline-led rule guarded by a search for an existing *.ipynb rule carrying the driver attribute (the lookup helper has a bounded run-time contract). Conditional on `git config` '
+        'semantics, monitored against real git by the bounded module (state graph per process, mixed-scope sessions, repository-local core.attributesfile).'),
  'C19': dict(category='other', design_ref='DESIGN.md 5/C19', note=TRUST_E, technique=TECH_E + ' + finite per-entry-point obligations; bounded executable model of the documented rule',
    text='Mixed: layering order of build_config (files with cwd first -> all defaults -> sections, in reversed-MRO order) and the most-specific-first order of the documented sections for each '
         'of the 11 entry points are PROVED from the current source; recursive_update\'s merge semantics and the flag/default interaction of the parsers are BOUNDED (executable model of the documented rule).'),
